@@ -10,7 +10,7 @@ package mem
 // Every node has its three maps; a child's parent pointer points back (nodesOK). member(n, g, c): client c has a
 // shared subscription of group g at node n. bare(n): the node holds no subscription of either kind and has no child.
 
-//@ spec func nodesOK() bool = (forall n *topicNode :: live(n) ==> n.children != nil && n.clients != nil && n.shared != nil) && (forall n *topicNode, k string :: live(n) && has(n.children, k) ==> n.children[k] != nil && n.children[k].parent == n) && (forall n *topicNode, g string :: live(n) && has(n.shared, g) ==> n.shared[g] != nil)
+//@ spec func nodesOK() bool = (forall n *topicNode :: live(n) ==> n.children != nil && n.clients != nil && n.shared != nil) && (forall n *topicNode, k string :: live(n) && has(n.children, k) ==> live(n.children[k]) && n.children[k].parent == n) && (forall n *topicNode, g string :: live(n) && has(n.shared, g) ==> n.shared[g] != nil)
 // ownsOK: no two nodes share a map, and no two (node, group) pairs share a member map (every map is made for its node).
 //@ spec func ownsOK() bool = (forall n *topicNode, m *topicNode :: live(n) && live(m) && n != m ==> n.clients != m.clients && n.children != m.children && n.shared != m.shared) && (forall n *topicNode, m *topicNode, g string :: live(n) && live(m) && has(m.shared, g) ==> n.clients != m.shared[g]) && (forall n *topicNode, g string, m *topicNode, h string :: live(n) && live(m) && has(n.shared, g) && has(m.shared, h) && (n != m || g != h) ==> n.shared[g] != m.shared[h])
 //@ spec func member(n *topicNode, g string, c string) bool = has(n.shared, g) && has(n.shared[g], c)
@@ -24,15 +24,15 @@ package mem
 // map (shared) —, the node carries the filter as its name, no other entry of any node changes, no link is removed.
 //@ func (*topicTrie).subscribe
 //@ props C02 C11
-//@ requires [C02] t != nil && s != nil && nodesOK() && ownsOK()
+//@ requires [C02] t != nil && live(t) && s != nil && nodesOK() && ownsOK()
 //@ modifies heap
-//@ ensures [C02] result != nil && nodesOK() && ownsOK() && result.topicName == s.TopicFilter
+//@ ensures [C02] result != nil && live(result) && nodesOK() && ownsOK() && result.topicName == s.TopicFilter
 //@ ensures [C02] s.ShareName == "" ==> has(result.clients, clientID) && result.clients[clientID] == s
 //@ ensures [C11] s.ShareName != "" ==> member(result, s.ShareName, clientID) && result.shared[s.ShareName][clientID] == s
 //@ ensures [C02] forall n *topicNode, c string :: live(n) && !isfresh(n) && !(n == result && c == clientID && s.ShareName == "") ==> has(n.clients, c) == old(has(n.clients, c)) && n.clients[c] == old(n.clients[c])
 //@ ensures [C11] forall n *topicNode, g string, c string :: live(n) && !isfresh(n) && !(n == result && g == s.ShareName && c == clientID && s.ShareName != "") ==> member(n, g, c) == old(member(n, g, c))
 //@ ensures [C02] forall n *topicNode, k string :: live(n) && !isfresh(n) && old(has(n.children, k)) ==> has(n.children, k) && n.children[k] == old(n.children[k])
-//@ loop 1 invariant pNode != nil && nodesOK() && ownsOK()
+//@ loop 1 invariant pNode != nil && live(pNode) && nodesOK() && ownsOK()
 //@ loop 1 invariant forall n *topicNode, c string :: live(n) && !isfresh(n) ==> has(n.clients, c) == old(has(n.clients, c)) && n.clients[c] == old(n.clients[c])
 //@ loop 1 invariant forall n *topicNode, g string, c string :: live(n) && !isfresh(n) ==> member(n, g, c) == old(member(n, g, c))
 //@ loop 1 invariant forall n *topicNode, k string :: live(n) && !isfresh(n) && old(has(n.children, k)) ==> has(n.children, k) && n.children[k] == old(n.children[k])
@@ -41,7 +41,7 @@ package mem
 // unlinked from its parent only when it is bare.
 //@ func (*topicTrie).unsubscribe
 //@ props C02 C11
-//@ requires [C02] t != nil && nodesOK() && ownsOK()
+//@ requires [C02] t != nil && live(t) && nodesOK() && ownsOK()
 //@ modifies heap
 //@ ensures [C02] nodesOK() && ownsOK()
 //@ ensures [C02] forall n *topicNode, c string :: live(n) && (c != clientID || shareName != "") ==> has(n.clients, c) == old(has(n.clients, c)) && n.clients[c] == old(n.clients[c])
@@ -52,7 +52,7 @@ package mem
 // that is unlinked has no child and no entry of the kind this trie holds.)
 //@ ensures [C02 C11] forall n *topicNode, k string :: live(n) && old(has(n.children, k)) && !has(n.children, k) ==> len(old(n.children[k]).children) == 0 && (shareName == "" ? len(old(n.children[k]).clients) == 0 : len(old(n.children[k]).shared) == 0)
 //@ ensures [C02] forall n *topicNode, k string :: live(n) && has(n.children, k) ==> old(has(n.children, k)) && n.children[k] == old(n.children[k])
-//@ loop 1 invariant pNode != nil && nodesOK() && ownsOK() && (rangeindex >= 0 ==> pNode.parent != nil && has(pNode.parent.children, topicSlice[rangeindex]) && pNode.parent.children[topicSlice[rangeindex]] == pNode)
+//@ loop 1 invariant pNode != nil && live(pNode) && nodesOK() && ownsOK() && (rangeindex >= 0 ==> live(pNode.parent) && has(pNode.parent.children, topicSlice[rangeindex]) && pNode.parent.children[topicSlice[rangeindex]] == pNode)
 
 // IterateLocked — routing between the three tries. A topic name that starts with '$' never reaches the user trie
 // ([MQTT-4.7.2-1]: filters starting with a wildcard do not match it); the system trie is only asked for '$' names
